@@ -648,5 +648,22 @@ mut("14-markers-toggle-the-section", "C14", "section:set-by-marker", ("internal/
 mut("16-reader-not-counted", "C16", "counted:add-done-paired", ("mtproto.go", "func (m *MTProto) startReadingResponses(ctx context.Context) {\n	m.routineswg.Add(1)\n", "func (m *MTProto) startReadingResponses(ctx context.Context) {\n"))
 mut("02-container-element-hoisted", "C02", "container-item:fresh-per-iteration", ("internal/mtproto/objects/types.go", "	for i := 0; i < count; i++ {\n		msg := new(messages.Encrypted)\n", "	msg := new(messages.Encrypted)\n	for i := 0; i < count; i++ {\n"))
 
+# --- round 15 (letter o) ---------------------------------------------------------------------------------
+mut("03-seqno-shifted-on-plain-path", "C03", "seq-no:as-is/plain", ("internal/mtproto/messages/messages.go", "		d.PutInt(client.GetSeqNo())\n", "		d.PutInt(client.GetSeqNo() &^ 1)\n"))
+mut("08-write-coalesces-small-writes", "C08", "write:", ("internal/transport/conn_tcp.go", "	return t.conn.Write(b)\n", "	if len(b) == 0 {\n		return 0, nil\n	}\n	return t.conn.Write(b)\n"))
+mut("14-one-bit-one-field", "C14", "shared-bits:no-refusal-in-parseDefinition", ("internal/cmd/tlgen/tlparser/parser.go", "		def.Params = append(def.Params, param)", "		for _, prev := range def.Params {\n			if prev.IsOptional && param.IsOptional && prev.BitToTrigger == param.BitToTrigger {\n				return def, fmt.Errorf(\"bit %d used twice\", param.BitToTrigger)\n			}\n		}\n		def.Params = append(def.Params, param)"))
+mut("16-receive-loop-asks-for-state", "C16", "receive-loop:requests-not-waited-for", ("mtproto.go", "	case *objects.Pong, *objects.MsgsAck:\n", "	case *objects.MsgsStateReq:\n		if _, err := m.MakeRequest(&objects.MsgsStateInfo{ReqMsgID: int64(msg.GetMsgID()), Info: []byte{4}}); err != nil {\n			return err\n		}\n\n	case *objects.Pong, *objects.MsgsAck:\n"))
+mut("19-draw-error-shadowed", "C19", "failed-draw:", ("telegram/internal/srp/2fa.go", "	if _, err := rand.Read(random); err != nil {\n		return nil, errors.Wrap(err, \"reading crypto/rand\")\n	}\n", "	var err error\n	for i := 0; i < 3; i++ {\n		if _, err := rand.Read(random); err == nil {\n			break\n		}\n	}\n	if err != nil {\n		return nil, errors.Wrap(err, \"reading crypto/rand\")\n	}\n"))
+mut("19-draw-error-ignored", "C19", "failed-draw:", ("telegram/internal/srp/2fa.go", "	if _, err := rand.Read(random); err != nil {\n		return nil, errors.Wrap(err, \"reading crypto/rand\")\n	}\n", "	_, _ = rand.Read(random)\n"))
+mut("06-exchange-skipped-when-key-bytes-present", "C06", "exchange:whenever-not-confirmed", ("mtproto.go", "	if !m.encrypted {\n		err = m.makeAuthKey()", "	if len(m.authKey) == 0 {\n		err = m.makeAuthKey()"))
+mut("10-marshal-buffer-pooled", "C10", "marshal:result-owned-by-caller", ("internal/encoding/tl/encoder.go", "	buf := bytes.NewBuffer(nil)\n	encoder := NewEncoder(buf)\n", "	buf := marshalBufs.Get().(*bytes.Buffer)\n	buf.Reset()\n	defer marshalBufs.Put(buf)\n	encoder := NewEncoder(buf)\n"), ("internal/encoding/tl/encoder.go", "func Marshal(v any) ([]byte, error) {\n", "var marshalBufs = sync.Pool{New: func() interface{} { return bytes.NewBuffer(nil) }}\n\nfunc Marshal(v any) ([]byte, error) {\n"), ("internal/encoding/tl/encoder.go", "import (\n", "import (\n	\"sync\"\n"))
+mut("09-waiter-channel-from-a-pool", "C09", "fresh-channel:sendPacket/(*sync.Pool)", ("network.go", "	return make(chan tl.Object)\n", "	return respPool.Get().(chan tl.Object)\n"), ("network.go", "func (m *MTProto) getRespChannel() chan tl.Object {\n", "var respPool = sync.Pool{New: func() interface{} { return make(chan tl.Object) }}\n\nfunc (m *MTProto) getRespChannel() chan tl.Object {\n"), ("network.go", "import (\n", "import (\n	\"sync\"\n"))
+# negative controls of round 15 / negative round A (behaviour-preserving; must stay silent)
+mut("neg-03-seqno-through-a-variable", "C03", None, ("internal/mtproto/messages/messages.go", "	if requireToAck { // не спрашивай, как это работает\n		d.PutInt(client.GetSeqNo() | 1) // почему тут добавляется бит не ебу\n	} else {\n		d.PutInt(client.GetSeqNo())\n	}\n", "	seqNo := client.GetSeqNo()\n	if requireToAck {\n		seqNo |= 1\n	}\n	d.PutInt(seqNo)\n"))
+mut("neg-07-nonce-checks-in-a-new-helper", "C07", None, (H, "	if nonceFirst.Cmp(dhParams.Nonce.Int) != 0 {\n		return errors.New(\"handshake: Wrong nonce\")\n	}\n	if nonceServer.Cmp(dhParams.ServerNonce.Int) != 0 {\n		return errors.New(\"handshake: Wrong server_nonce\")\n	}\n", "	if err := sameNonces(nonceFirst, nonceServer, dhParams.Nonce, dhParams.ServerNonce); err != nil {\n		return err\n	}\n"), (H, "func (m *MTProto) makeAuthKey() error { // nolint", "func sameNonces(a, b, gotA, gotB *tl.Int128) error {\n	if a.Cmp(gotA.Int) != 0 {\n		return errors.New(\"handshake: Wrong nonce\")\n	}\n	if b.Cmp(gotB.Int) != 0 {\n		return errors.New(\"handshake: Wrong server_nonce\")\n	}\n	return nil\n}\n\nfunc (m *MTProto) makeAuthKey() error { // nolint"))
+mut("neg-19-draw-error-in-else", "C19", None, ("telegram/internal/srp/2fa.go", "	if _, err := rand.Read(random); err != nil {\n		return nil, errors.Wrap(err, \"reading crypto/rand\")\n	}\n\n	return getInputCheckPassword(password, srpB, mp, random)\n", "	_, err := rand.Read(random)\n	if err == nil {\n		return getInputCheckPassword(password, srpB, mp, random)\n	}\n	return nil, errors.Wrap(err, \"reading crypto/rand\")\n"))
+mut("neg-04-msgkey-by-the-package-function", "C04", None, ("internal/mtproto/messages/messages.go", "dry.Sha1Byte(trimed)[4:20]", "ige.MessageKey(trimed)"))
+mut("neg-08-marker-operands-swapped", "C08", None, ("internal/mode/arbiged.go", "if sizeBuf[0] == magicValueSizeMoreThanSingleByte {", "if magicValueSizeMoreThanSingleByte == sizeBuf[0] {"))
+
 json.dump(M, open('/verif/selftest/mutations.json', 'w'), indent=1, ensure_ascii=False)
 print(len(M), "mutations")
